@@ -148,8 +148,8 @@ def apply_contract(eng, con, selfpair, args, kwargs, e, st, ctor=None):
     ghosts_rw = [n for n in ghosts if n not in GHOST_READONLY]
     for gname in ghosts:
         if gname not in st.env:
-            raise Unsupported('%s: callee %s needs ghost state %s which the caller does not carry'
-                              % (fc.qualname, con.qualname, gname))
+            # ghost state the caller does not track: an arbitrary value (the caller states nothing about it)
+            st.env[gname] = fresh(con.params[gname], gname)
         vals[gname] = st.env[gname]
     for n, shp in con.params.items():
         if n in vals:
